@@ -116,6 +116,7 @@ Print Assumptions C08_shortest_for_key.
 
 Theorem C08_shortest_none : shortest [] = [].
 Proof. exact shortest_nil. Qed.
+Print Assumptions C08_shortest_none.
 
 (* ---- 6. ValuesForKey returns exactly the values stored under the key ---- *)
 Theorem C08_has_key_walk_stored : forall m k,
